@@ -444,6 +444,10 @@ let run_line c kt (st : st) (line : string) (impl_line : string) : string =
               (hx (nodeid_display x)) (hx (nodeid_debug x)) (hx (nodeid_debug x))
         | "deser" -> (
             match nodeid_deser (unhx t.(2)) with Some x -> "ok " ^ hx x ^ " glue=1" | None -> "err glue=1")
+        | "eq" ->
+            (* an id is its 32 bytes: equal exactly when the bytes are *)
+            let e = if unhx t.(2) = unhx t.(3) then "1" else "0" in
+            Printf.sprintf "eq=%s eqraw=%s hash=%s" e e e
         | _ -> "badcmd")
     | "ckimport" -> (
         let x = unhx t.(2) in
@@ -453,7 +457,7 @@ let run_line c kt (st : st) (line : string) (impl_line : string) : string =
           | _ -> (import_ed x, fun e -> query ("pub ed " ^ hx e))
         in
         match res.imp_ok with
-        | None -> "err buf=" ^ hx res.imp_buf
+        | None -> "err buf=" ^ hx res.imp_buf ^ " offs=1"
         | Some e ->
             let pub = match split_ws (pubq e) with [ "ok"; p ] -> p | _ -> "nopub" in
             (* the record the implementation built with the imported key must decode, verify and carry this key *)
@@ -471,7 +475,7 @@ let run_line c kt (st : st) (line : string) (impl_line : string) : string =
                   | _ -> "norec")
               | None -> "norec"
             in
-            Printf.sprintf "ok buf=%s export=%s pub=%s rec=%s" (hx res.imp_buf) (hx e) pub rec_field)
+            Printf.sprintf "ok buf=%s export=%s pub=%s rec=%s offs=1" (hx res.imp_buf) (hx e) pub rec_field)
     | _ -> "badcmd"
 
 let () =
